@@ -60,6 +60,11 @@ def leaf_lines(kind, n):
         "target-n": ["(n)=", "T%d after target n" % n],
         "h1-n": ["# n"],
         "fnref-a": ["F%d ref[^a]" % n],
+        # a numeric footnote label keeps its number as label text: the same name can also belong to a target or a heading
+        "fnref-2": ["F%d ref[^2]" % n],
+        "fndef-2": ["[^2]: D%d note" % n],
+        "target-2": ["(2)=", "T%d after target 2" % n],
+        "h1-2": ["# 2"],
         "fndef-a": ["[^a]: D%d note" % n],
         "d-figure": ["```{figure} img.png", ":name: fig%d" % n, "", "Caption %d" % n, "", "Legend para", "", "- legend list", "```"],
         "d-figure-bad": ["```{figure} img.png", "", "- not a caption", "```"],
@@ -276,6 +281,8 @@ def families(tier, seed):
     F = []
     F.append(Family("flat/B2", make, "all pairs of top-level blocks from %r" % (LEAF,), args=dict(depth=0, nblocks=2), nontrivial=None, max_forks=400000))
     F.append(Family("nested/D1-B1", make, "one block, containers %r holding 1-2 leaf blocks" % (CONT,), args=dict(depth=1, nblocks=1), nontrivial="nested", max_forks=400000))
+    NUM = ["fnref-2", "fndef-2", "target-2", "h1-2", "fndef", "fnref-a"]
+    F.append(Family("names-numeric/B3", make, "all triples of blocks from %r (a numeric footnote label that is also the name of a target / heading)" % (NUM,), args=dict(depth=0, nblocks=3, leaf=NUM), nontrivial=None, max_forks=400000))
     F.append(Family("names/B3", make, "all triples of blocks from %r (footnote labels, explicit targets and headings sharing a name)" % (NAMES,), args=dict(depth=0, nblocks=3, leaf=NAMES), nontrivial=None, max_forks=400000))
     F.append(Family("directives/D1", make, "one block: a directive from %r at top level or inside quote / list item / note" % (DIRS,), args=dict(depth=1, nblocks=1, leaf=DIRS), nontrivial="nested", max_forks=400000))
     F.append(Family("directives+names/B2", make, "pairs of a directive and a name-bearing block", args=dict(depth=0, nblocks=2, leaf=DIRS + ["target-n", "fndef", "fnref", "link-a", "h1-n"]), nontrivial=None, max_forks=400000,
